@@ -422,7 +422,9 @@ impl Cx {
         let mut done = 0u64;
         'outer: for pass in 0..passes {
             for (fi, tag) in exact.iter().enumerate() {
-                if *tag == "m.eq" && MAP_EQ_EXCLUDED.load(std::sync::atomic::Ordering::Relaxed) {
+                if (*tag == "m.eq" && MAP_EQ_EXCLUDED.load(std::sync::atomic::Ordering::Relaxed))
+                    || (*tag == "l.retain.value" && RETAIN_VALUE_EXCLUDED.load(std::sync::atomic::Ordering::Relaxed))
+                {
                     continue;
                 }
                 for big in [true, false] {
@@ -640,6 +642,10 @@ fn main() {
         MAP_EQ_EXCLUDED.store(true, std::sync::atomic::Ordering::Relaxed);
         cx.rep.note("shape filter: map `==` (form m.eq) is not part of the generated mixes while F-C19-10 is open; it is replayed as a history witness");
     }
+    if cx.open.iter().any(|x| x == "F-C19-11") {
+        RETAIN_VALUE_EXCLUDED.store(true, std::sync::atomic::Ordering::Relaxed);
+        cx.rep.note("shape filter: list.retain with a value (form l.retain.value) is not part of the generated mixes while F-C19-11 is open; it is replayed as a history witness");
+    }
     // ---- 0. listed findings ---------------------------------------------------------------------
     let t_phase = std::time::Instant::now();
     let mut phase_s: Vec<(String, f64)> = vec![];
@@ -801,7 +807,7 @@ fn run_stress_phases(cx: &mut Cx) {
     let rounds = if thorough { 1500 } else { 400 };
     // wall-clock budgets (spin barriers are slow on an oversubscribed machine): specs are taken in
     // seed order, so a shorter run explores a prefix of a longer one
-    let (budget_small, budget_big) = if thorough { (330.0, 420.0) } else { (30.0, 40.0) };
+    let (budget_small, budget_big) = if thorough { (330.0, 420.0) } else { (25.0, 25.0) };
     let mut small_done = 0;
     for i in 0..n_small {
         if i >= 12 && t0.elapsed().as_secs_f64() - t_self > budget_small {
@@ -835,6 +841,12 @@ fn run_stress_phases(cx: &mut Cx) {
             return;
         }
         for n in [2usize, 4, 8] {
+            // under heavy machine load one set can take minutes: the budget is also checked per
+            // thread count (the first set always runs n = 2 and n = 4)
+            if (rep_i >= 1 || n == 8) && t0.elapsed().as_secs_f64() - t_small > budget_big {
+                cx.rep.note("large-history stress: wall-clock budget reached (machine under load)");
+                break;
+            }
             let mut r = cx.rng.fork();
             let _ = rep_i;
             let s = gen_big_list(&mut r, n, k);
@@ -982,12 +994,19 @@ fn replay_known(cx: &mut Cx) {
             cx.rep.note(format!("{}: deadlock not reproduced in this run", c.id));
         }
     }
-    // map `==` over two guards: history witness, exact check
-    if cx.rep.known_entries().iter().any(|e| e["id"].as_str() == Some("F-C19-10")) {
-        let known = cx.open.iter().any(|x| x == "F-C19-10");
-        let s = map_eq_history(if cx.thorough { 6000 } else { 2500 });
+    // history witnesses (exact check) of operations that are check-then-act / copy-then-write-back
+    let hist: [(&str, fn(usize) -> Stress, &str); 2] = [
+        ("F-C19-10", map_eq_history, "map == over two guards"),
+        ("F-C19-11", retain_value_history, "list.retain(value) copies, compares unguarded, writes back"),
+    ];
+    for (id, mk, what) in hist {
+        if !cx.rep.known_entries().iter().any(|e| e["id"].as_str() == Some(id)) {
+            continue;
+        }
+        let known = cx.open.iter().any(|x| x == id);
+        let s = mk(if cx.thorough { 6000 } else { 2500 });
         let ans = cx.arc.ask(&stress_request(&s, true, 200), WATCHDOG);
-        cx.rep.case("history witness F-C19-10", true);
+        cx.rep.case(&format!("history witness {}", id), true);
         let v: Value = serde_json::from_str(&ans).unwrap_or(json!({}));
         let mut bad: Option<String> = None;
         for o in v["outcomes"].as_array().cloned().unwrap_or_default() {
@@ -999,17 +1018,17 @@ fn replay_known(cx: &mut Cx) {
             }
         }
         match (bad, known) {
-            (Some(b), true) => cx.rep.known("F-C19-10", &format!("map == over two guards: outcome without a linearization: {}", b.chars().take(160).collect::<String>())),
+            (Some(b), true) => cx.rep.known(id, &format!("{}: outcome without a linearization: {}", what, b.chars().take(160).collect::<String>())),
             (Some(b), false) => {
                 cx.d_fail += 1;
-                cx.rep.violation("D", "C19:regression:F-C19-10", json!({"kind": "stress", "observed": b, "note": "a finding recorded as fixed fails again"}));
+                cx.rep.violation("D", &format!("C19:regression:{}", id), json!({"kind": "stress", "observed": b, "note": "a finding recorded as fixed fails again"}));
             }
-            (None, true) => cx.rep.note("F-C19-10: race not reproduced in this run (schedule dependent)"),
+            (None, true) => cx.rep.note(format!("{}: race not reproduced in this run (schedule dependent)", id)),
             (None, false) => {}
         }
         if ans == "TIMEOUT" {
             cx.d_fail += 1;
-            cx.rep.violation("D", "C19:deadlock", json!({"kind": "stress", "mode": "witness-map-eq"}));
+            cx.rep.violation("D", "C19:deadlock", json!({"kind": "stress", "mode": s.kind}));
         }
     }
 }
